@@ -23,9 +23,15 @@ fn icao_u32(i: &ICAO) -> u32 {
 }
 
 pub fn snapshot(p: &Airplanes) -> Snapshot {
+    snapshot_opt(p, true)
+}
+
+/// `views = false` skips the two derived views whose cost grows with the track length
+/// (Display, all_position) and reports them as consistent with the record.
+pub fn snapshot_opt(p: &Airplanes, views: bool) -> Snapshot {
     let mut s = Snapshot::new();
-    let allpos = p.all_position();
-    let text = p.to_string();
+    let allpos = if views { p.all_position() } else { vec![] };
+    let text = if views { p.to_string() } else { String::new() };
     for (k, st) in p.iter() {
         let a = icao_u32(k);
         let mut r = ObsRec { num_messages: u64::from(st.num_messages), callsign: st.callsign.as_ref().map(|c| c.replace(' ', "")), ..ObsRec::default() };
@@ -45,8 +51,13 @@ pub fn snapshot(p: &Airplanes) -> Snapshot {
             r.track = t.iter().filter_map(|c| c.position.map(|q| (q.latitude, q.longitude))).collect();
         }
         r.details = p.aircraft_details(*k).map(|d| ObsDetails { position: (d.position.latitude, d.position.longitude), altitude: u32::from(d.altitude), distance: d.kilo_distance, heading: d.heading.map(f64::from) });
-        r.in_all_position = allpos.iter().find(|(i, _)| i == k).map(|(_, q)| (q.latitude, q.longitude));
-        r.in_display = text.lines().any(|l| l.starts_with(&format!("{k}: ")));
+        if views {
+            r.in_all_position = allpos.iter().find(|(i, _)| i == k).map(|(_, q)| (q.latitude, q.longitude));
+            r.in_display = text.lines().any(|l| l.starts_with(&format!("{k}: ")));
+        } else {
+            r.in_all_position = r.position;
+            r.in_display = r.details.is_some();
+        }
         s.insert(a, r);
     }
     s
@@ -366,6 +377,32 @@ pub fn gen_crowd(r: &mut Rng) -> History {
     History { receiver: (52.0, 4.0), max_range: 500.0, ops, kind: "crowd" }
 }
 
+/// One aircraft on a long steady flight: thousands of accepted, changing positions (a track
+/// that keeps growing), with the occasional identification / velocity frame.
+pub fn gen_marathon(r: &mut Rng) -> History {
+    let receiver = *r.pick(&[(52.0, 4.0), (0.0, 0.0), (-45.0, 170.0)]);
+    let n = r.range(1100, 2600) as usize;
+    let (mut lat, mut lon) = cpr::destination(receiver.0, receiver.1, r.f64() * 360.0, 50.0);
+    let bearing = r.f64() * 360.0;
+    let mut f = Flight { addr: 0x4B1800 + r.below(256) as u32, lat, lon, bearing, step_km: 0.25, callsigns: vec!["LONGHAUL".into()], next_odd: false, last_pos_frame: None };
+    let mut ops = Vec::with_capacity(n);
+    for k in 0..n {
+        // a gentle circle around the receiver keeps every report in range and < 100 km from the last
+        let brg = bearing + k as f64 * 0.2;
+        let (la, lo) = cpr::destination(lat, lon, brg, 0.25);
+        lat = la;
+        lon = lo;
+        let odd = k % 2 == 1;
+        ops.push(Op::Frame(pos_frame(r, &mut f, odd, la, lo)));
+        if k % 97 == 0 {
+            let cs = f.callsigns.clone();
+            let kind = r.below(2);
+            ops.push(Op::Frame(other_es_frame(r, f.addr, kind, &cs)));
+        }
+    }
+    History { receiver, max_range: 500.0, ops, kind: "marathon" }
+}
+
 pub fn history_json(h: &History) -> Value {
     json!({
         "receiver": [h.receiver.0, h.receiver.1],
@@ -437,7 +474,7 @@ pub fn run_history(g: &Gillham, col: &mut Collector, h: &History, upto: usize) -
                     }
                     dis = d;
                 } else {
-                    let snap = snapshot(&planes);
+                    let snap = snapshot_opt(&planes, h.kind != "marathon" || idx % 64 == 0 || idx + 1 == h.ops.len());
                     dis = model.step(&ev, added, &snap);
                 }
                 col.count("tracker_steps", 1);
@@ -537,7 +574,8 @@ pub fn run(ctx: &Ctx) -> i32 {
             let kind = kinds[(i % 5) as usize];
             // a few busy-sky histories per run (C12: the set only shrinks through expiry)
             let crowd = !with_time && ctx.prop == "C12" && i % 300 == 7;
-            let h = if crowd { gen_crowd(r) } else { gen_history(r, kind, with_time) };
+            let marathon = !with_time && i % 1500 == 11;
+            let h = if crowd { gen_crowd(r) } else if marathon { gen_marathon(r) } else { gen_history(r, kind, with_time) };
             let kind = h.kind;
             slot.begin(|| format!("tracker history #{i} kind {kind}"));
             let planes = run_history(&ctx.g, col, &h, usize::MAX);
